@@ -19,6 +19,10 @@
 (*     leaves of a few sources [+ equilibrium]), in each sort of Sorts2.   *)
 (*   quick: depth <= 1 combiners take their operands from a reduced leaf   *)
 (*     set; depth 2 in i16 stereo over sources {2,4} only.                 *)
+(*   wide integer formats (samples are limb records, values need more bits *)
+(*     than the mantissa of the format's float companion): every adaptor   *)
+(*     variant at depth 1 over from_iter of sources {2,4}, i32 stereo and  *)
+(*     i64 mono (SortsW).                                                  *)
 (* Every owned source occurs at most once in a term (Rust ownership).      *)
 (***************************************************************************)
 EXTENDS Signals, Json, IOUtils, SequencesExt
@@ -41,6 +45,7 @@ Sorts1 == { << "i16", 2 >>, << "u8", 1 >>, << "f64", 2 >> }
 \* "coreX" = from_iter of sources {1,3,4}
 Sorts2 == IF Quick THEN { << "i16", 2, "core" >> }
           ELSE { << "i16", 2, "coreX" >>, << "u8", 1, "core" >>, << "f64", 2, "core" >> }
+SortsW == { << "i32", 2 >>, << "i64", 1 >> }
 
 ---------------------------------------------------------------------------
 (* parameter and data tables, per sample format *)
@@ -48,10 +53,16 @@ Sorts2 == IF Quick THEN { << "i16", 2, "core" >> }
 Dy(num, sh) == DMk(num < 0, BFromNat(IF num < 0 THEN 0 - num ELSE num), 0 - sh)      \* num / 2^sh
 FVal(f, num, sh) == Rne(FmtOf(f), Dy(num, sh))
 \* value of "amplitude a" (a in -6..6) in format f: distinct per format, both signs, odd and even
+\* (i32: 27 significant bits, more than f32's 24; i64: 59, more than f64's 53.  Sums of two values
+\* and an offset stay in range.)
+W64(hi, sh, lo) == WJ(SAdd(SShl(SFromInt(hi), sh), SFromInt(lo)))
 Val(f, a) == CASE f = "i16" -> a * 257 [] f = "i8" -> a [] f = "u8" -> 128 + a [] IsFloat(f) -> FVal(f, a, 4)
+               [] f = "i32" -> WJ(SFromInt(a * 89478487)) [] f = "i64" -> W64(a * 89478487, 32, 7 * a + 1)
 AmpAt(j, i, c) == ((5 * j + 3 * i + 7 * c) % 13) - 6
 OffsetP(f) == CASE f = "i16" -> 300 [] f \in {"i8", "u8"} -> 3 [] IsFloat(f) -> FVal(f, 1, 3)       \* of format SignedOf(.)
+                [] f = "i32" -> WJ(SFromInt(300000001)) [] f = "i64" -> W64(300000001, 30, 5)
 ClipP(f)   == CASE f = "i16" -> 600 [] f \in {"i8", "u8"} -> 2 [] IsFloat(f) -> FVal(f, 1, 3)
+                [] f = "i32" -> WJ(SFromInt(200000003)) [] f = "i64" -> W64(200000003, 32, 9)
 Gain(f, i) == FVal(FloatOf(f), IF i = 1 THEN 3 ELSE -1, IF i = 1 THEN 2 ELSE 1)                     \* 3/4, -1/2
 GainPc(f, ch) == [c \in 1..ch |-> IF c % 2 = 1 THEN Gain(f, 1) ELSE Gain(f, 2)]
 OffsetPc(f, ch) == [c \in 1..ch |-> IF c % 2 = 1 THEN OffsetP(f) ELSE SAddAmp(SignedOf(f), OffsetP(f), OffsetP(f))]
@@ -108,6 +119,8 @@ T1Rich(f, ch) == Leaves(f, ch, "rich")
                  \cup Build(f, ch, TRUE, LAMBDA g : Leaves(g, ch, "rich"), LAMBDA g : Leaves(g, ch, "pair"))
 T1Core(f, ch, lv) == Leaves(f, ch, lv)
                      \cup Build(f, ch, FALSE, LAMBDA g : Leaves(g, ch, lv), LAMBDA g : Leaves(g, ch, lv))
+T1Wide(f, ch) == Leaves(f, ch, "core")
+                 \cup Build(f, ch, TRUE, LAMBDA g : Leaves(g, ch, "core"), LAMBDA g : Leaves(g, ch, "core"))
 T2(f, ch, lv) == {t \in Build(f, ch, FALSE, LAMBDA g : T1Core(g, ch, lv), LAMBDA g : T1Core(g, ch, lv)) : Depth(t) = 2}
 
 \* the sources of a scenario: the kind and format of source j are those of the leaf using it
@@ -123,6 +136,7 @@ Scen(t, so) == [ch |-> so[2], fmt |-> so[1], srcs |-> SrcsFor(t, so[1], so[2]), 
 Scenarios(tier) ==
   UNION {{Scen(t, so) : t \in T1Rich(so[1], so[2])} : so \in Sorts1}
   \cup UNION {{Scen(t, so) : t \in T2(so[1], so[2], so[3])} : so \in Sorts2}
+  \cup UNION {{Scen(t, so) : t \in T1Wide(so[1], so[2])} : so \in SortsW}
 
 ---------------------------------------------------------------------------
 (* the state machine: the public calls of Signal and of the iterator adaptors *)
@@ -312,6 +326,7 @@ NonVacuous(S) ==
   /\ \A so \in Sorts1 : \A k \in LeafSrc \cup Leaf0 \cup Unary \cup Binary :
        \E s \in S : s.fmt = so[1] /\ s.ch = so[2] /\ s.term.k = k
   /\ \A k \in Unary \cup Binary : \E s \in S : Depth(s.term) = 2 /\ k \in KindsOf(s.term.a)
+  /\ \A so \in SortsW : \A k \in Unary \cup Binary : \E s \in S : s.fmt = so[1] /\ s.ch = so[2] /\ s.term.k = k
   /\ \E s \in S : DLen([ch |-> s.ch, srcs |-> s.srcs], s.term) >= Inf
   /\ \E s \in S : ByRefsOf(s.term) # {} /\ Depth(s.term) = 1
   /\ \E s \in S : s.term.k = "delay" /\ s.term.a.k = "byref"
@@ -322,13 +337,18 @@ NonVacuous(S) ==
 EvNext == [ev |-> "next", a |-> [x |-> 0]]
 EvIe   == [ev |-> "is_exhausted", a |-> [x |-> 0]]
 EvDrop == [ev |-> "drop", a |-> [x |-> 0]]
+EvClone == [ev |-> "clone", a |-> [x |-> 0]]
 EvResume(j) == [ev |-> "resume", a |-> [src |-> j]]
-EvCollect(c, tn, byref, j) == [ev |-> "collect", a |-> [consumer |-> c, n |-> tn, cap |-> 64, byref |-> byref, j |-> j]]
+EvCollect(c, tn, k, byref, j) == [ev |-> "collect", a |-> [consumer |-> c, n |-> tn, k |-> k, cap |-> 64, byref |-> byref, j |-> j]]
 Rep(e, k) == [i \in 1..k |-> e]
 
 \* thorough: every call sequence / consumer variant for the depth <= 1 scenarios, the core ones for
 \* depth 2.  quick: the core ones, plus one `&mut` consumer variant and one drop point per scenario
 \* (rotating with the shape of the scenario) -- TLC still explores all of them on the model.
+\* `Clone` (terms without a borrowed leaf: `&mut S` is not Clone; on the model a clone is a copy of the
+\* state, so there is nothing to explore -- these are stimuli for the code): the interleaved-sample
+\* iterator cloned INSIDE a frame (after 1 or ch + 1 samples; after 2 ch - 1 as well in thorough),
+\* take / until_exhausted cloned after 1 item, the signal cloned between `next` calls.
 Execs(s) ==
   LET XX == [ch |-> s.ch, srcs |-> s.srcs]
       len == DLen(XX, s.term)
@@ -341,7 +361,17 @@ Execs(s) ==
       shallow == Depth(s.term) <= 1
       sel == (B + Cardinality(SrcsOf(s.term)) + Cardinality(KindsOf(s.term)) + s.ch) % 4
       after(byref) == IF byref THEN << EvNext, EvNext, EvIe >> ELSE resumes
-      cons(n0, c, tn, byref, j) == << reset >> \o Rep(EvNext, n0) \o << EvCollect(c, tn, byref, j) >> \o after(byref)
+      cons(n0, c, tn, byref, j) == << reset >> \o Rep(EvNext, n0) \o << EvCollect(c, tn, 0, byref, j) >> \o after(byref)
+      consCl(c, tn, k) == << reset, EvCollect(c, tn, k, FALSE, 0) >>
+      seqCl == << reset >> \o Flat(Rep(<< EvNext, EvClone >>, B)) \o << EvIe >>
+      ilCl == IF ~fin \/ brs # {} \/ s.ch < 2 THEN {}
+              ELSE {consCl("il_clone", 0, k) : k \in (IF Quick THEN {<< 1, s.ch + 1 >>[(sel % 2) + 1]}
+                                                               ELSE {1, s.ch + 1, 2 * s.ch - 1})}
+      itCl == IF brs # {} THEN {}
+              ELSE IF Quick THEN (IF sel = 1 THEN {IF fin THEN consCl("ue_clone", 0, 1) ELSE consCl("take_clone", B, 1)}
+                                  ELSE IF sel = 2 THEN {seqCl} ELSE {})
+              ELSE {consCl("take_clone", B, k) : k \in {1, 2}} \cup {seqCl}
+                   \cup (IF fin THEN {consCl("ue_clone", 0, k) : k \in {1, 2}} ELSE {})
       drops(ds) == {<< reset >> \o Rep(EvNext, d) \o << EvDrop >> \o resumes : d \in (IF brs = {} THEN {} ELSE ds)}
       seqNext == << reset >> \o Rep(EvNext, B)
       seqIe == << reset, EvIe >> \o Flat(Rep(<< EvNext, EvIe >>, B)) \o << EvIe >>
@@ -349,6 +379,7 @@ Execs(s) ==
                  \o (IF fin THEN << cons(1, "ue", 0, TRUE, 0), cons(1, "il", 0, TRUE, 0) >> ELSE << >>)
   IN {cons(0, "take", 2, FALSE, 0)}
      \cup (IF fin THEN {cons(0, "ue", 0, FALSE, 0), cons(0, "il", 0, FALSE, 0)} ELSE {})
+     \cup (IF shallow THEN ilCl \cup itCl ELSE {})
      \cup (IF ~shallow THEN {seqNext}
            ELSE IF Quick
              THEN {seqIe, mutCons[(sel % Len(mutCons)) + 1]}
